@@ -246,44 +246,71 @@ Section RowsReaderProofs.
       inversion H; subst c' r; clear H. right. repeat split; assumption.
   Qed.
 
+  Lemma eof_flag_step : forall n pos, pos < N -> (pos + 2 <= N \/ 0 < n) ->
+    ((0 <? S n) && (N - pos <=? S n)) = ((0 <? n) && (N - S pos <=? n)).
+  Proof.
+    intros n pos Hlt H. destruct n as [|n].
+    - cbn. destruct (Nat.leb_spec (N - pos) 1); [lia|reflexivity].
+    - cbn [Nat.ltb Nat.leb andb].
+      destruct (Nat.leb_spec (N - pos) (S (S n))), (Nat.leb_spec (N - S pos) (S n)); try reflexivity; lia.
+  Qed.
+
   Lemma read_rows_spec : forall n c bf bc pos cp c2 bf2 bc2 ids eof,
     CI c cp -> cp = pos + bc -> (0 < bc -> bf = pos /\ cp <= N) ->
     read_rows cstep fuel n c bf bc = (c2, bf2, bc2, ids, eof) ->
     let cnt := Nat.min n (N - pos) in
-    ids = seq pos cnt /\ eof = (N - pos <? n) /\
+    ids = seq pos cnt /\ eof = ((0 <? n) && (N - pos <=? n)) /\
     exists cp2, CI c2 cp2 /\ cp2 = pos + cnt + bc2 /\ (0 < bc2 -> bf2 = pos + cnt /\ cp2 <= N).
   Proof.
     induction n as [|n IH]; intros c bf bc pos cp c2 bf2 bc2 ids eof Hc Hcp Hb H; cbv zeta.
     - cbn in H. inversion H; subst; clear H. cbn. rewrite Nat.add_0_r.
       split; [reflexivity|]. split; [reflexivity|]. exists (pos + bc2). repeat split; try tauto.
-    - cbn [read_rows] in H. destruct (bc =? 0) eqn:E0.
-      + apply Nat.eqb_eq in E0. subst bc. rewrite Nat.add_0_r in Hcp. subst cp.
-        destruct (fill cstep fuel c) as [c' r] eqn:Ef.
-        destruct (fill_spec _ _ _ _ Hc Ef) as [(Hlt & e & -> & He1 & He2 & Hc')|(Hge & -> & Hc')].
-        * destruct (read_rows cstep fuel n c' (S pos) (e - pos - 1))
+    - cbn [read_rows] in H.
+      (* the buffer after the optional refill *)
+      assert (Hbuf : forall c1 buf, (if bc =? 0 then fill cstep fuel c else (c, Some (bf, bc))) = (c1, buf) ->
+                (buf = None /\ N <= pos /\ CI c1 pos) \/
+                (exists cnt, buf = Some (pos, cnt) /\ 0 < cnt /\ pos + cnt <= N /\ CI c1 (pos + cnt))).
+      { intros c1 buf Hf. destruct (bc =? 0) eqn:E0.
+        - apply Nat.eqb_eq in E0. subst bc. rewrite Nat.add_0_r in Hcp. subst cp.
+          destruct (fill_spec _ _ _ _ Hc Hf) as [(Hlt & e & -> & He1 & He2 & Hc')|(Hge & -> & Hc')].
+          + right. exists (e - pos). replace (pos + (e - pos)) with e by lia.
+            repeat split; try assumption; lia.
+          + left. repeat split; assumption.
+        - apply Nat.eqb_neq in E0. inversion Hf; subst c1 buf; clear Hf.
+          destruct Hb as (-> & Hle); [lia|]. right. exists bc. subst cp.
+          repeat split; try assumption; lia. }
+      destruct (if bc =? 0 then fill cstep fuel c else (c, Some (bf, bc))) as [c1 buf] eqn:Ebuf.
+      destruct (Hbuf c1 buf eq_refl) as [(-> & Hge & Hc1)|(cnt & -> & Hcnt & Hle & Hc1)]; clear Hbuf Ebuf.
+      + inversion H; subst; clear H.
+        replace (Nat.min (S n) (N - pos)) with 0 by lia. cbn [seq].
+        split; [reflexivity|]. split.
+        * cbn [Nat.ltb Nat.leb andb]. destruct (Nat.leb_spec (N - pos) (S n)); [reflexivity|lia].
+        * exists pos. repeat split; try assumption; lia.
+      + replace (Nat.min (S n) (N - pos)) with (S (Nat.min n (N - S pos))) by lia.
+        destruct (cnt <=? 1) eqn:E1.
+        * apply Nat.leb_le in E1. assert (cnt = 1) by lia. subst cnt.
+          destruct (fill cstep fuel c1) as [c2' r] eqn:Ef.
+          destruct (fill_spec _ _ _ _ Hc1 Ef) as [(Hlt & e & -> & He1 & He2 & Hc')|(Hge & -> & Hc')].
+          -- destruct (read_rows cstep fuel n c2' (pos + 1) (e - (pos + 1)))
+               as [[[[c3 bf3] bc3] ids3] eof3] eqn:Er.
+             inversion H; subst; clear H.
+             apply (IH _ _ _ (S pos) e) in Er; [|assumption|lia|lia].
+             cbv zeta in Er. destruct Er as (-> & -> & cp2 & Hc2 & Hcp2 & Hb2).
+             split; [reflexivity|]. split; [symmetry; apply eof_flag_step; lia|].
+             exists cp2. repeat split; try assumption; try lia. all: apply Hb2 in H; lia.
+          -- inversion H; subst; clear H.
+             replace (Nat.min n (N - S pos)) with 0 by lia. cbn [seq].
+             split; [reflexivity|]. split.
+             ++ cbn [Nat.ltb Nat.leb andb]. destruct (Nat.leb_spec (N - pos) (S n)); [reflexivity|lia].
+             ++ exists (pos + 1). repeat split; try assumption; lia.
+        * apply Nat.leb_gt in E1.
+          destruct (read_rows cstep fuel n c1 (S pos) (cnt - 1))
             as [[[[c3 bf3] bc3] ids3] eof3] eqn:Er.
           inversion H; subst; clear H.
-          apply (IH _ _ _ (S pos) e) in Er; [|assumption|lia|lia].
+          apply (IH _ _ _ (S pos) (pos + cnt)) in Er; [|assumption|lia|lia].
           cbv zeta in Er. destruct Er as (-> & -> & cp2 & Hc2 & Hcp2 & Hb2).
-          replace (Nat.min (S n) (N - pos)) with (S (Nat.min n (N - S pos))) by lia.
-          split; [reflexivity|]. split.
-          -- destruct (Nat.ltb_spec (N - S pos) n), (Nat.ltb_spec (N - pos) (S n)); try reflexivity; lia.
-          -- exists cp2. repeat split; try assumption; try lia. all: apply Hb2 in H; lia.
-        * inversion H; subst; clear H.
-          replace (Nat.min (S n) (N - pos)) with 0 by lia. cbn [seq].
-          split; [reflexivity|]. split.
-          -- destruct (Nat.ltb_spec (N - pos) (S n)); [reflexivity|lia].
-          -- exists pos. repeat split; try assumption; lia.
-      + apply Nat.eqb_neq in E0. destruct Hb as (-> & Hle); [lia|].
-        destruct (read_rows cstep fuel n c (S pos) (bc - 1))
-          as [[[[c3 bf3] bc3] ids3] eof3] eqn:Er.
-        inversion H; subst; clear H.
-        apply (IH _ _ _ (S pos) (pos + bc)) in Er; [|assumption|lia|lia].
-        cbv zeta in Er. destruct Er as (-> & -> & cp2 & Hc2 & Hcp2 & Hb2).
-        replace (Nat.min (S n) (N - pos)) with (S (Nat.min n (N - S pos))) by lia.
-        split; [reflexivity|]. split.
-        * destruct (Nat.ltb_spec (N - S pos) n), (Nat.ltb_spec (N - pos) (S n)); try reflexivity; lia.
-        * exists cp2. repeat split; try assumption; try lia. all: apply Hb2 in H; lia.
+          split; [reflexivity|]. split; [symmetry; apply eof_flag_step; lia|].
+          exists cp2. repeat split; try assumption; try lia. all: apply Hb2 in H; lia.
   Qed.
 
   Definition rinv (r : rstate) (pos : nat) : Prop :=
